@@ -194,6 +194,24 @@ def main(tier, seed, replay=None):
                 res.append("fuel")
         return res
 
+    # task::read_depfile on real files (flattening, NUL terminator, missing file = empty) against depfile_deps
+    if not replay:
+        rd_cases = ["-x"] + [hexs(t) for _, t in structured[:1500]] + [lines[i] for i in rng.sample(range(len(cases)), min(1500, len(cases)))]
+        rd_cases = [c if c != "-" else "" for c in rd_cases]
+        rd_impl = run_lines_sharded([har, "readdepfile"], [c or "-" for c in rd_cases])
+        rd_model = run_lines_sharded([drv, "depfiledeps"], [c or "-" for c in rd_cases])
+        rd_bad = 0
+        for c, a, m in zip(rd_cases, rd_impl, rd_model):
+            a_kind, m_kind = a.split(" ")[0], m.split(" ")[0]
+            same_ = (a.strip() == m.strip()) if a_kind == "ok" else (a_kind == m_kind == "err")
+            if not same_:
+                rd_bad += 1
+                if rd_bad <= 3:
+                    run.tie("correspondence task::read_depfile", {"depfile_hex": c[:400], "implementation": a[:300], "model": m[:300]})
+            if c == "-x" and a.strip() != "ok":
+                run.report_failure(None, "a missing depfile does not count as empty: %s" % a[:120], {"case": "missing depfile"})
+        run.coverage["read_depfile_cases"] = len(rd_cases)
+        run.coverage["read_depfile_disagreements"] = rd_bad
     nvm = vm_subsample(run, "depfile", rng, sub_lines, sub_model,
                        lambda l: "depfile_parse %s" % coq_list(unhexs(l)), parse_vm)
     if not replay:
